@@ -169,8 +169,8 @@ func getJWPlayerURLs(c *warc.CustomHTTPClient) (URLs []string) {
 func extractJWPlayerVersion(body string) string {
 	lines := strings.Split(body, "\n")
 	for _, line := range lines {
-		if strings.Contains(line, "JW Player version") {
-			return strings.Split(line, "JW Player version ")[1]
+		if parts := strings.Split(line, "JW Player version "); len(parts) > 1 {
+			return parts[1]
 		}
 	}
 	return ""
